@@ -53,6 +53,8 @@ type OpScript struct {
 type ConnScript struct {
 	Connect OpScript   `json:"connect"`
 	Empty   bool       `json:"empty"` // ACK style: in-order empty ACKs (Datadog-like) instead of explicit IDs (Fluentd-like)
+	Sync    bool       `json:"sync,omitempty"` // synchronous connection, exactly as the Datadog client implements the interface: SendChunk
+	// returns after the upstream has answered (its result IS the acknowledgement) and ReadChunkAck returns ("", nil) at once, always
 	Sends   []OpScript `json:"sends"`
 	Acks    []OpScript `json:"acks"`
 	Pings   []OpScript `json:"pings"`
@@ -215,7 +217,11 @@ func (c *mockConn) SendChunk(chunk base.LogChunk, deadline time.Time) error {
 		c.sendCnd.Broadcast()
 		c.mu.Unlock()
 	}
-	c.w.add(Event{Kind: "send", Conn: c.id, Chunk: chunk.ID, OK: err == nil, Note: op.Outcome})
+	note := op.Outcome
+	if c.script.Sync && err == nil {
+		note = "sync-ok" // the successful synchronous send is the upstream's acknowledgement of this chunk
+	}
+	c.w.add(Event{Kind: "send", Conn: c.id, Chunk: chunk.ID, OK: err == nil, Note: note})
 	return err
 }
 
@@ -234,6 +240,11 @@ func (c *mockConn) SendPing(deadline time.Time) error {
 }
 
 func (c *mockConn) ReadChunkAck(deadline time.Time) (string, error) {
+	if c.script.Sync {
+		c.w.beginOp()
+		c.w.add(Event{Kind: "ack", Conn: c.id, Chunk: "", OK: true, Note: "sync"})
+		return "", nil
+	}
 	c.w.beginOp()
 	c.mu.Lock()
 	op := pick(c.script.Acks, c.nAck)
@@ -461,6 +472,10 @@ func runCase(c Case) vh.Result {
 				}
 				sentOKOn[e.Chunk][e.Conn] = e.Seq
 				unackedNow[e.Chunk] = true
+				if e.Note == "sync-ok" {
+					ackAvail[e.Chunk] = append(ackAvail[e.Chunk], e.Seq)
+					classes["synchronous-connection"] = true
+				}
 			} else {
 				classes["send-"+e.Note] = true
 				if len(unackedNow) > 0 {
@@ -627,6 +642,9 @@ func gen(t *rapid.T) Case {
 	for i := 0; i < nconn; i++ {
 		cs := ConnScript{Connect: OpScript{Outcome: rapid.SampledFrom([]string{"ok", "ok", "ok", "error", "block"}).Draw(t, "connect")}}
 		cs.Empty = rapid.IntRange(0, 3).Draw(t, "emptyStyle") == 0
+		if cs.Empty && rapid.Bool().Draw(t, "sync") {
+			cs.Sync = true
+		}
 		cs.Connect.Delay = rapid.SampledFrom([]int{0, 0, 1, 3}).Draw(t, "connectDelay")
 		cs.Sends = genOps(t, "send", []string{"error", "block"}, 6)
 		cs.Acks = genOps(t, "ack", []string{"error", "block", "wrongid", "late"}, 6)
@@ -651,6 +669,6 @@ func gen(t *rapid.T) Case {
 func TestC02Client(t *testing.T) {
 	vh.Run(t, vh.Spec[Case]{
 		Name: "client", Gen: gen, Run: runCase, Quick: 250, Thorough: 4000, ShrinkSeconds: 6,
-		Rule: "the real baseoutput.ClientWorker driven by a scripted ClosableClientConnection: 0-5 scripted connection attempts (connect ok/error/hang; explicit-ID or in-order empty ACK style), per connection up to 6 scripted send outcomes (ok/error/block until closed or deadline), 6 ACK-read outcomes (ok/error/block/wrong ID/late after n more sends) and ping outcomes, per-operation delays, 0-30 chunks fed with gaps, stop request when the k-th I/O operation begins or after a drain wait, SIGUSR1 and max-session-age reconnects; afterwards everything is healthy. Oracle over the recorded history: consumed only after an ACK for that chunk on a connection where its send succeeded; every chunk taken from the queue resolved exactly once (consumed xor leftover), none twice, OnFinished last; sends per connection in increasing ID order without skipping an older unresolved chunk; worker stops within 8 s. Non-trivial = an injected fault while chunks were un-ACKed, or a stop with chunks in flight",
+		Rule: "the real baseoutput.ClientWorker driven by a scripted ClosableClientConnection: 0-5 scripted connection attempts (connect ok/error/hang; explicit-ID, in-order empty ACK style, or a synchronous connection whose ACK read returns at once as the Datadog client's does), per connection up to 6 scripted send outcomes (ok/error/block until closed or deadline), 6 ACK-read outcomes (ok/error/block/wrong ID/late after n more sends) and ping outcomes, per-operation delays, 0-30 chunks fed with gaps, stop request when the k-th I/O operation begins or after a drain wait, SIGUSR1 and max-session-age reconnects; afterwards everything is healthy. Oracle over the recorded history: consumed only after an ACK for that chunk on a connection where its send succeeded; every chunk taken from the queue resolved exactly once (consumed xor leftover), none twice, OnFinished last; sends per connection in increasing ID order without skipping an older unresolved chunk; worker stops within 8 s. Non-trivial = an injected fault while chunks were un-ACKed, or a stop with chunks in flight",
 	})
 }
